@@ -522,4 +522,8 @@ theorem allRel : ∀ f, AllRel f
   | 0 => allRel_zero
   | f + 1 => allRel_succ (allRel f)
 
+theorem rel_init (ctl : List CTok) (lay₁ lay₂ : List Nat) : R (St.init ctl lay₁) (St.init ctl lay₂) :=
+  ⟨rfl, by simp [St.init, EnvRel, SlotsRel], rfl, by simp [St.init, VRelL], by simp [St.init, TempsRel],
+   rfl, rfl⟩
+
 end NaijaVerif.Mem
